@@ -16,7 +16,7 @@
    of Limbs.v, width 64 for VecZnx, width `wb` for VecZnxBig (64 on the FFT64 family, 128 on NTT120).
    Randomness is an INPUT: the raw u64 stream of the mask source, the already rounded error values, the secret,
    the ephemeral secret.  Word arithmetic wraps as in a release build. *)
-From PV Require Import Base.MachineInt Model.Znx Model.Limbs Model.Flat Model.DftAbs.
+From PV Require Import Base.MachineInt Model.Znx Model.Limbs Model.LimbsBig Model.Flat Model.DftAbs.
 Open Scope Z_scope.
 
 Definition poly := list Z.
@@ -103,6 +103,15 @@ Definition svp (s : poly) (n size : nat) (c : ccol) : ccol :=
 (* per-coefficient map over a column, failing if one coefficient fails *)
 Definition cmap_opt (n : nat) (f : nat -> option (list Z)) : option ccol := sequence (map f (seq 0 n)).
 
+(* vec_znx_big_normalize at offset 0 for one coefficient: the FFT64 family reinterprets the i64 accumulator as a VecZnx
+   and calls vec_znx_normalize; the NTT120 family runs its own i128 routine (LimbsBig.v: the cross-radix pre-alignment
+   shift floors instead of rounding) and stores the digits `as i64` *)
+Definition bnorm (wb rb ab : Z) (a r0 : list Z) : option (list Z) :=
+  match (if wb =? 64 then normalize 64 rb ab 0 a r0 else normalize_big wb rb ab 0 a r0) with
+  | Some o => Some (map (wrap 64) o)
+  | None => None
+  end.
+
 Section Enc.
 Variable wb : Z.   (* word width of VecZnxBig: 64 (FFT64Ref/Avx) or 128 (NTT120Ref/Avx) *)
 
@@ -111,7 +120,7 @@ Variable wb : Z.   (* word width of VecZnxBig: 64 (FFT64Ref/Avx) or 128 (NTT120R
 (* iteration i (1-based) of the mask loop, coefficient k, given the product column:
    `vec_znx_big_normalize(ci, base2k, 0, 0, ci_big, base2k, 0)` *)
 Definition sk_term_coeff (b : Z) (size : nat) (prod_k : list Z) : option (list Z) :=
-  normalize wb b b 0 prod_k (zeros size).
+  bnorm wb b b prod_k (zeros size).
 
 (* what is multiplied by s_{i-1}: the mask column, or normalize_assign(mask - pt) when the plaintext sits on column i *)
 Definition sk_src (b : Z) (n size : nat) (pt : option (ccol * nat)) (i : nat) (ai : ccol) : ccol :=
@@ -173,7 +182,7 @@ Definition decompress_glwe (b : Z) (n size rank : nat) (body : ccol) (us : nat -
 (* coefficient k: c0_big = 0 + prod_1 + ... + prod_rank (big add), + body (add small), normalised into the plaintext *)
 Definition dec_coeff (b pb : Z) (size psize : nat) (prods_k : list (list Z)) (body_k : list Z) : option (list Z) :=
   let acc := fold_left (fun c p => l_add_assign wb p c) prods_k (zeros size) in
-  normalize wb pb b 0 (l_add_assign wb body_k acc) (zeros psize).
+  bnorm wb pb b (l_add_assign wb body_k acc) (zeros psize).
 
 Definition dec_glwe (b pb : Z) (n size psize : nat) (sk : list poly) (ct : list ccol) : option ccol :=
   let body := hd [] ct in
@@ -186,7 +195,7 @@ Definition dec_glwe (b pb : Z) (n size psize : nat) (sk : list poly) (ct : list 
 Definition pk_coeff (b : Z) (size ell : nat) (prod_k : list Z) (e_k : Z) (pt_k : option (list Z)) : option (list Z) :=
   let c1 := l_add_at wb ell e_k prod_k in
   let c2 := match pt_k with Some p => l_add_assign wb p c1 | None => c1 end in
-  normalize wb b b 0 c2 (zeros size).
+  bnorm wb b b c2 (zeros size).
 
 Definition enc_pk (b : Z) (n size size_pk : nat) (nk : Z) (pt : option ccol) (u : poly) (pk : list ccol)
            (es : list poly) : option (list ccol) :=
